@@ -547,9 +547,17 @@ class Interp(object):
             a = self.ev(args[0])
             if isinstance(a, Arr) and a.roles:
                 return Scalar(('shape', a.roles[0]))
-            lr = self.sig.get('len_roles', {})
-            if isinstance(args[0], ast.Name) and args[0].id in lr:
-                return Scalar(('len', lr[args[0].id]))
+            # the number of distinct values of a parameter (the value is
+            # derived from that parameter alone, through a de-duplicating
+            # step) has the role the signature declares for it
+            lr = self.sig.get('distinct_len_roles', {})
+            if lr:
+                from ..core.slicing import backward_slice
+                sl = backward_slice(self.fi, args[0])
+                if len(sl.params) == 1 and next(iter(sl.params)) in lr \
+                        and (sl.call_names() & {'set', 'unique', 'keys',
+                                                'fromkeys'}):
+                    return Scalar(('len', lr[next(iter(sl.params))]))
             return Scalar()
         if nm in ('round', 'int', 'float', 'abs', 'max', 'min',
                   'choose_int_dtype', 'time', 'update_timer', 'print',
